@@ -11,6 +11,7 @@ import shutil
 
 from . import shims
 from .shims import CLOCK
+from .core import CaseHang, WATCHDOG
 
 import cloudsync
 from cloudsync import CloudSync, LOCAL, REMOTE
@@ -296,11 +297,15 @@ class Case:
         try:
             m.run(until=lambda: True, sleep=0)      # production loop body, exactly one do()
         except BaseException as e:                  # Runnable.run swallows everything; anything here is a finding
+            if isinstance(e, CaseHang):             # the runner's wall-clock watchdog: not the engine's exception
+                raise
             self.escaped.append((self.step_no, who, repr(e)))
             if self.cfg.get("reraise"):
                 raise
         finally:
             self.in_engine = False
+        if WATCHDOG["fired"]:       # (Runnable.run swallowed the watchdog's exception)
+            raise CaseHang()
         self.drain_notes()
 
     def drain_notes(self):
